@@ -195,16 +195,21 @@ def _mi(t, case, rng):
         ext = np.concatenate([held_edges[0] - w * np.arange(a, 0, -1), held_edges, held_edges[-1] + w * np.arange(1, b + 1)])
         # keep only the samples that were in range before, and move the last-edge samples strictly inside
         keep = x.astype(float)
-        xin = np.where((keep >= held_edges[0]) & (keep < held_edges[-1]), x, x[0][None, :])      # row 0 is in range by construction
-        o1 = subjects.make(dict(spec, bin_edges=held_edges.tolist()))
-        o2 = subjects.make(dict(spec, bin_edges=ext.tolist()))
-        o1.update(xin, data)
-        o2.update(xin, data)
-        with np.errstate(all='ignore'):
-            r1, r2 = np.asarray(o1.compute(), dtype=float), np.asarray(o2.compute(), dtype=float)
-        t.count('empty_bin_twins')
-        ok = np.allclose(r1, r2, rtol=0, atol=1e-9, equal_nan=True)
-        t.check(ok, 'empty_bins_change_result', lambda: dict(info, extended_edges=ext.tolist()[:8], a=r1.tolist(), b=r2.tolist()))
+        xin = np.where((keep >= held_edges[0]) & (keep < held_edges[-1]), x, x[0][None, :])      # row 0 is usually in range
+        fin = xin.astype(float)
+        if not bool(np.all((fin >= held_edges[0]) & (fin < held_edges[-1]))):
+            # the added bins would not be empty (row 0 itself lies outside the edges): the relation does not apply to this workload
+            t.count('empty_bin_twin_not_applicable')
+        else:
+            o1 = subjects.make(dict(spec, bin_edges=held_edges.tolist()))
+            o2 = subjects.make(dict(spec, bin_edges=ext.tolist()))
+            o1.update(xin, data)
+            o2.update(xin, data)
+            with np.errstate(all='ignore'):
+                r1, r2 = np.asarray(o1.compute(), dtype=float), np.asarray(o2.compute(), dtype=float)
+            t.count('empty_bin_twins')
+            ok = np.allclose(r1, r2, rtol=0, atol=1e-9, equal_nan=True)
+            t.check(ok, 'empty_bins_change_result', lambda: dict(info, extended_edges=ext.tolist()[:8], a=r1.tolist(), b=r2.tolist()))
     if rng.random() < 0.5:
         sup = declared + [max(declared) + 9, max(declared) + 17]
         o3 = subjects.make(dict(spec, partitions=sup, bin_edges=held_edges.tolist(), bins_number=None))
